@@ -28,14 +28,22 @@ func Scenarios(prop string) []gx.Sc {
 	}
 	switch prop {
 	case "C03", "C18":
-		return []gx.Sc{
+		var extra []gx.Sc
+		if prop == "C18" {
+			// a panicking consumer interceptor in the middle of a chain of three, fast and slow reader
+			extra = []gx.Sc{
+				{Name: "cons?n=3&cuts=2&fmts=5&slow=1&buf=0&icpt=3&icptpanic=2&faults=" + faults + "&gates=" + gates, Q: 2, T: 3},
+				{Name: "cons?n=3&cuts=1&fmts=3&ver=0.10.2.0&buf=1&icpt=3&icptpanic=3&faults=" + faults + "&gates=" + gates, Q: 1, T: 2},
+			}
+		}
+		return append(extra, []gx.Sc{
 			{Name: "cons?n=3&cuts=2&fmts=5&slow=1&buf=0&faults=" + faults + "&gates=" + gates + icpt, Q: 3, T: 4},
 			{Name: "cons?n=4&cuts=5&fmts=6,5&codec=1&slow=1&buf=1&faults=" + faults + "&gates=" + gates + icpt, Q: 2, T: 3},
 			{Name: "cons?n=3&cuts=1&fmts=3&ver=0.10.2.0&slow=1&buf=0&fsz=60&faults=" + faults + "&gates=" + gates + icpt, Q: 2, T: 3},
 			{Name: "cons?n=2&cuts=1&fmts=5&np=2&slow=1&buf=0&faults=" + faults + ",out-of-range&gates=" + gates + icpt, Q: 2, T: 3},
 			{Name: "cons?n=3&cuts=3&fmts=5&nb=2&move=1&app=1&buf=4&faults=" + faults + "&gates=" + gates + icpt, Q: 2, T: 3},
 			{Name: "cons?n=3&cuts=2&fmts=0&ver=0.8.2.0&slow=1&buf=0&fsz=40&faults=" + faults + "&gates=" + gates + icpt, Q: 2, T: 3},
-		}
+		}...)
 	case "C11":
 		return []gx.Sc{
 			{Name: "cons?txn=dA,dB,aA,cB,dN&iso=rc&bpf=1&slow=1&faults=" + faults + "&gates=" + gates, Q: 2, T: 3},
